@@ -109,6 +109,7 @@ def run(ck):
                 for alloc in ("ok", "fail"):
                     lines.append("feqz %d %d %d %d %d %s" % (la, lb, d, za, zb, alloc)); ck.count_distinct(lines[-1])
     lines.append("feqproc")
+    lines.append("fsops")
     lines.append("feqmissing")
     for k in ["reg", "dir", "fifo", "lnkreg", "lnkdir", "dangling", "chr", "sock", "missing"]: lines.append("ftype " + k)
     for k in ["missing", "0", "1", "4096", "70000"]: lines.append("fsize " + k)
@@ -116,7 +117,7 @@ def run(ck):
         lines.append("canon %s | %s" % (" ".join(tree), hx(p)))
     lines.append("foreach"); lines.append("foreach f:x"); lines.append("foreach f:x d:y f:z.txt f:.hidden d:..a")
     # descriptor 0 free: the first file a function opens gets number 0 (file_equals, dir_for_each, canonical_path, file_size …)
-    lines += ["fd0 " + l for i, l in enumerate(lines) if (l.split()[0] in ("feq", "feqz", "feqino") and i % 5 == 0) or l.split()[0] in ("feqmissing", "feqproc", "foreach", "fsize", "ftype", "canon")]
+    lines += ["fd0 " + l for i, l in enumerate(lines) if (l.split()[0] in ("feq", "feqz", "feqino") and i % 5 == 0) or l.split()[0] in ("feqmissing", "feqproc", "fsops", "foreach", "fsize", "ftype", "canon")]
     hist = [lines[i:i + 300] for i in range(0, len(lines), 300)]
     ck.sample(lines[40:43]); ck.sample(lines[-20:-17])
     for l in lines: ck.hist(l.split()[0])
